@@ -100,6 +100,8 @@ DESCR = {
 
 
 NOT_CLAIMED = {
+    'C03_r12f': 'compressed character columns written with increments as narrow as the longest value: a legal FM-94 layout (sample pgps_110), values equal after blank padding, fixpoint clauses hold',
+    'C20_r12f': 'made template compilation the default of `pybufrkit decode`, which exposed a GENUINE defect of the unchanged tree (stale compiled template after a re-definition message); repaired by fix 779fc27 - with the fix this change no longer breaks anything; the pre-fix tree is reported by C20 (variant `compiling`)',
     'C07_r7e': 'ill-formed message (shorter second bitmap without 235000): FM-94 designates nothing, the unchanged library refuses it',
     'C09_r7e': 'needs a message whose wiring raises; only known shape is on the grey list (class 33 after a completed quality run)',
     'C19_r7e': 'writer state after a refused write is not part of the statement; reported as ADVISORY probe only',
@@ -152,6 +154,15 @@ def main(argv):
                     f = load(p1)
                 except Exception:
                     f = None
+        mp = os.path.join(d, 'meta.json')
+        if res is None and f is None and os.path.exists(mp):
+            # no new result for this change in the given directories: its meta.json (written from an earlier validation) stays
+            try:
+                old = json.load(open(mp))
+                rows.append((sid, old.get('change', ''), old.get('needs_to_manifest', ''), old.get('ran', {})))
+                continue
+            except Exception:
+                pass
         what, needs = DESCR.get(sid, ('', ''))
         if not what:
             what, needs = from_notes(d)
